@@ -22,7 +22,7 @@ theorem effective_spec (sp : Spec) (h : Inv2 sp) : effective sp.st = sp.st.work.
     by_cases hs : y ∈ e.snap
     · simp [hs]
     · have := hn y hy hs
-      simp [hs, target, this]
+      simp [hs, this]
   | none =>
     rw [he] at hl
     simp only at hl ⊢
